@@ -163,6 +163,16 @@ def run(ctx):
     r9(ctx, prog)
     from .c13 import r8_island_peak
     r8_island_peak(ctx, prog, rule="C03-R18", polarity=True)
+    ctx.rule("C03-R20", "psf_a / psf_b of a row are the beam AT the source: "
+             "the psf accessors of WCSHelper hand (row, column) positions "
+             "to the pixel <-> sky conversions in the order those expect "
+             "(index-type contracts; a transposed position gives the beam "
+             "of another place in a wide field, and int_flux = peak a b / "
+             "(psf_a psf_b) no longer holds)")
+    unitrules.apply(ctx, "C03-R20",
+                    lambda sh: sh.startswith("wcs_helpers.WCSHelper.get_"),
+                    kinds={"call", "return", "sink", "store"},
+                    what="contract sites in the psf accessors", floor=4)
     ctx.rule("C03-R17", "the fitting box of a priorized island is cut with "
              "row bounds made of row quantities and column bounds made of "
              "column quantities (a row bound clamped with the number of "
@@ -542,13 +552,52 @@ def r4(ctx, prog):
                 norm(s.value.func) == "pa_limit")
     scale = nodes(lambda s: inbody(s) and isinstance(s, ast.AugAssign) and
                   norm(s.target) in ("source.a", "source.b"))
-    # the RA wrap: an `if` on source.ra whose body shifts source.ra
-    wrap = nodes(lambda s: inbody(s) and isinstance(s, ast.If) and
-                 any(isinstance(x, ast.Attribute) and norm(x) == "source.ra"
-                     for x in ast.walk(s.test)) and
-                 any(isinstance(b, (ast.Assign, ast.AugAssign)) and
-                     norm(b.targets[0] if isinstance(b, ast.Assign)
-                          else b.target) == "source.ra" for b in s.body))
+    # the RA wrap: an `if` on source.ra whose body shifts source.ra, or
+    # source.ra = <helper of the module>(...)
+    def _is_wrap(s):
+        if isinstance(s, ast.If) and \
+                any(isinstance(x, ast.Attribute) and norm(x) == "source.ra"
+                    for x in ast.walk(s.test)) and \
+                any(isinstance(b, (ast.Assign, ast.AugAssign)) and
+                    norm(b.targets[0] if isinstance(b, ast.Assign)
+                         else b.target) == "source.ra" for b in s.body):
+            return True
+        if isinstance(s, ast.Assign) and \
+                norm(s.targets[0]) == "source.ra" and \
+                isinstance(s.value, ast.Call) and \
+                isinstance(s.value.func, ast.Name) and \
+                len(s.value.args) == 1:
+            q_ = prog.resolve_name(prog.modules[rc.module],
+                                   s.value.func.id)
+            return q_ in prog.functions
+        return False
+    # (looked for in the program as written: a wrap helper that the loader
+    # inlined is a three-statement sequence, the call is one statement)
+    rawp = ctx.raw_prog()
+    rc_raw = rawp.func("source_finder.SourceFinder.result_to_components")
+    g_raw = CFG(rc_raw.node)
+    _prog_saved, prog_w = prog, rawp
+
+    def _is_wrap_raw(s):
+        nonlocal_prog = prog_w
+        if isinstance(s, ast.Assign) and \
+                norm(s.targets[0]) == "source.ra" and \
+                isinstance(s.value, ast.Call) and \
+                isinstance(s.value.func, ast.Name) and \
+                len(s.value.args) == 1:
+            q_ = nonlocal_prog.resolve_name(
+                nonlocal_prog.modules[rc_raw.module], s.value.func.id)
+            return q_ in nonlocal_prog.functions
+        return _is_wrap(s) if isinstance(s, ast.If) else False
+    loops_raw = [lp for lp in rc_raw.node.body if isinstance(lp, ast.For)]
+    in_raw = lambda s: any(s is x for x in ast.walk(loops_raw[0]))
+    wrap = [n for n, s in g_raw.stmt.items()
+            if g_raw.kind[n] in ("stmt", "if") and in_raw(s) and
+            _is_wrap_raw(s)]
+    strs_raw = [n for n, s in g_raw.stmt.items()
+                if g_raw.kind[n] == "stmt" and in_raw(s) and
+                isinstance(s, ast.Assign) and
+                norm(s.targets[0]) in ("source.ra_str", "source.dec_str")]
     strs = nodes(lambda s: inbody(s) and isinstance(s, ast.Assign) and
                  norm(s.targets[0]) in ("source.ra_str", "source.dec_str"))
     app = nodes(lambda s: inbody(s) and isinstance(s, ast.Expr) and
@@ -584,17 +633,15 @@ def r4(ctx, prog):
               "a/b/pa are modified after normalisation: %s" %
               [norm(g.stmt[n]) for n in bad],
               node=g.stmt[bad[0]] if bad else g.stmt[pal[0]])
-    for s in strs:
-        ctx.check("C03-R4", rc, "RA wrap before " + norm(g.stmt[s], 50),
-                  g.dominates(wrap[0], s), "the sexagesimal strings must be "
-                  "computed from the wrapped RA", node=g.stmt[s])
+    for s in strs_raw:
+        ctx.check("C03-R4", rc, "RA wrap before " + norm(g_raw.stmt[s], 50),
+                  g_raw.dominates(wrap[0], s), "the sexagesimal strings "
+                  "must be computed from the wrapped RA",
+                  node=g_raw.stmt[s])
     from .. import concrete as _cw
-    allwraps = [st for st in walk_no_nested(rc.node) if isinstance(st, ast.If)
-                and any(isinstance(x, ast.Attribute) and
-                        norm(x) == "source.ra" for x in ast.walk(st.test))
-                and any(isinstance(b, (ast.Assign, ast.AugAssign)) and
-                        norm(b.targets[0] if isinstance(b, ast.Assign)
-                             else b.target) == "source.ra" for b in st.body)]
+    allwraps = [st for st in walk_no_nested(rc_raw.node) if _is_wrap_raw(st)]
+    prog = rawp
+    rc_w = rc_raw
     ctx.floor("C03-R4", len(allwraps), 2, "RA wraps (component and island "
               "rows)")
     for w in allwraps:
@@ -605,7 +652,16 @@ def r4(ctx, prog):
         for v_ in (-190.5, -10.0, -1e-9, 0.0, 0, 1e-9, 10.0, 359.999):
             env_ = {"source.ra": v_}
             try:
-                _cw.run([w], env_)
+                if isinstance(w, ast.Assign):
+                    # source.ra = _wrap(<value>): the helper is interpreted
+                    # on the sample (whatever expression it is handed)
+                    q_ = prog.resolve_name(prog.modules[rc_w.module],
+                                           w.value.func.id)
+                    h_ = prog.functions[q_]
+                    out_h, _e = _cw.call(h_.node, {h_.params[0]: v_})
+                    env_["source.ra"] = out_h
+                else:
+                    _cw.run([w], env_)
             except _cw.Unknown as e:
                 raise AnalysisError("C03-R4: RA wrap: %s" % e)
             out_ = env_["source.ra"]
@@ -613,10 +669,11 @@ def r4(ctx, prog):
             if out_ != want_ or not (0 <= out_ < 360):
                 badw.append((v_, out_))
         ctx.check("C03-R4", rc, "RA wrap `%s` over 8 sample values" %
-                  norm(w.test), not badw,
+                  norm(w.test if isinstance(w, ast.If) else w, 50), not badw,
                   "a right ascension of %s comes out as %s: the wrap must add "
                   "360 to negative values only, leaving 0 <= ra < 360" %
                   (badw[0] if badw else ("", "")), node=w)
+    prog = _prog_saved
     # pa_limit post-condition: the function is interpreted (our evaluator,
     # not python) over angles on both sides of each boundary
     from .. import concrete
